@@ -33,6 +33,8 @@ MODEL_FIX = {"fixed": "all"}.get(os.environ.get("C13_MODEL", "all"), os.environ.
 # abstract programs
 #   stmt := ["copy", s, d] | ["gen", a, b, c] | ["dart", acc, a, b, c] | ["use", [bufs]] | ["sync"]
 #         | ["call", b] (func.call @ext, all cores, reads+writes b) | ["clear"] (snax.clear_l1)
+#         | ["sel", name, ci, x, y] (%name = arith.select %c<ci>, %x, %y: a buffer chosen at run time, as the parity
+#           selects of unroll-pipeline; the pass does not follow it: finding DC13b)
 #         | ["alloc", name] | ["dealloc", b] | ["sv", name, base(, "cast")] | ["if", then, else|None, ci] | ["for", body, ui]
 #           ui = 0|1: dynamic bounds (%lb to %ub<ui> step %st); ui = [lb, ub, step]: three arith.constant index ops
 #           in front of the loop (constant trip count = ceil((ub-lb)/step), 0 if empty)
@@ -97,6 +99,8 @@ def render(case):
                 out.append(f'{ind}%{s[1]} = memref.alloc() : {T}')
             elif k == "dealloc":
                 out.append(f'{ind}memref.dealloc %{s[1]} : {T}')
+            elif k == "sel":
+                out.append(f'{ind}%{s[1]} = arith.select %c{s[2]}, %{s[3]}, %{s[4]} : {T}')
             elif k == "sv" and len(s) > 3 and s[3] == "ucast":
                 out.append(f'{ind}%{s[1]} = builtin.unrealized_conversion_cast %{s[2]} : {T} to {T}')
             elif k == "sv" and len(s) > 3 and s[3] == "cast":
@@ -140,7 +144,7 @@ def abstract_prog(case):
     nb = case["nbuf"]
     val = {f"b{i}": i for i in range(nb)}
     val.update({"c0": nb, "c1": nb + 1, "lb": nb + 2, "ub0": nb + 3, "ub1": nb + 4, "st": nb + 5})
-    root = {f"b{i}": f"b{i}" for i in range(nb)}
+    root = {f"b{i}": [f"b{i}"] for i in range(nb)}
     nxt = [nb + 6]
     oid = [0]
 
@@ -148,14 +152,17 @@ def abstract_prog(case):
         oid[0] += 1
         return oid[0]
 
+    def flat(xs):
+        return [y for x in xs for y in (x if isinstance(x, list) else [x])]
+
     def leaf(cls, vals, reads=(), writes=(), dealloc=False):
-        return ["leaf", fresh_id(), cls, sorted(set(vals)), sorted(set(reads)), sorted(set(writes)), bool(dealloc)]
+        return ["leaf", fresh_id(), cls, sorted(set(vals)), sorted(set(flat(reads))), sorted(set(flat(writes))), bool(dealloc)]
 
     def V(b):
         return val[b]
 
-    def R(b):
-        return val[root[b]]
+    def R(b):  # the buffers a name may denote (one, unless an arith.select lies on the way)
+        return [val[x] for x in root[b]]
 
     def block(stmts):
         res = []
@@ -178,11 +185,17 @@ def abstract_prog(case):
             elif k == "alloc":
                 i = fresh_id()
                 val[s[1]] = nxt[0]
-                root[s[1]] = s[1]
+                root[s[1]] = [s[1]]
                 nxt[0] += 1
                 res.append(["leaf", i, "all", [val[s[1]]], [], [], False])
             elif k == "dealloc":
                 res.append(leaf("all", [V(s[1])], [], [R(s[1])], True))
+            elif k == "sel":
+                i = fresh_id()
+                val[s[1]] = nxt[0]
+                root[s[1]] = sorted(set(root[s[3]] + root[s[4]]))
+                nxt[0] += 1
+                res.append(["leaf", i, "all", sorted({val[s[1]], val[f"c{s[2]}"], V(s[3]), V(s[4])}), [], [], False])
             elif k == "sv":
                 i = fresh_id()
                 val[s[1]] = nxt[0]
@@ -250,13 +263,32 @@ class Conv:
                             self.val[a] = len(self.val)
                         self._number(blk)
 
-    def root(self, v):
-        from xdsl.dialects import memref
+    def roots(self, v, pick=None):
+        """The buffers (root SSA values) the value may denote: views are followed to their source; an arith.select
+        denotes the operand that `pick(condition)` chooses on this path (both when no path is given)."""
+        from xdsl.dialects import arith, memref
         from xdsl.ir import OpResult
         from xdsl.dialects.builtin import UnrealizedConversionCastOp
         while isinstance(v, OpResult) and isinstance(v.op, (memref.SubviewOp, memref.CastOp, UnrealizedConversionCastOp)):
             v = v.op.operands[0]
-        return v
+        if isinstance(v, OpResult) and isinstance(v.op, arith.SelectOp):
+            if pick is not None:
+                return self.roots(v.op.lhs if pick(v.op.cond) else v.op.rhs, pick)
+            out = self.roots(v.op.lhs) + [r for r in self.roots(v.op.rhs)]
+            return sorted(set(out), key=lambda r: self.val[r])
+        return [v]
+
+    def via_select(self, op):
+        """some memref operand of the operation reaches its buffer through an arith.select"""
+        from xdsl.dialects import arith, memref
+        from xdsl.ir import OpResult
+        from xdsl.dialects.builtin import UnrealizedConversionCastOp
+        for v in op.operands:
+            while isinstance(v, OpResult) and isinstance(v.op, (memref.SubviewOp, memref.CastOp, UnrealizedConversionCastOp)):
+                v = v.op.operands[0]
+            if isinstance(v, OpResult) and isinstance(v.op, arith.SelectOp):
+                return True
+        return False
 
     def cls(self, op):
         from snaxc.util.dispatching_rules import dispatch_to_compute, dispatch_to_dm
@@ -265,23 +297,24 @@ class Conv:
             return "dm+cp"
         return "dm" if d else ("cp" if c else "all")
 
-    def access(self, op):
-        """(reads, writes) as root SSA values."""
+    def access(self, op, pick=None):
+        """(reads, writes) as root SSA values (on the path described by `pick`, see `roots`)."""
+        R = lambda vs: [r for v in vs for r in self.roots(v, pick)]  # noqa: E731
         from xdsl.dialects import linalg, memref
         from xdsl.dialects.builtin import MemRefType
         from snaxc.dialects import dart
         if isinstance(op, memref.CopyOp):
-            return [self.root(op.source)], [self.root(op.destination)]
+            return R([op.source]), R([op.destination])
         if isinstance(op, linalg.GenericOp):
-            return [self.root(v) for v in op.inputs], [self.root(v) for v in op.outputs]
+            return R(op.inputs), R(op.outputs)
         if isinstance(op, dart.StreamingRegionOpBase):
-            return [self.root(v) for v in op.inputs], [self.root(v) for v in op.outputs]
+            return R(op.inputs), R(op.outputs)
         if isinstance(op, memref.DeallocOp):
-            return [], [self.root(op.memref)]
+            return [], R([op.memref])
         if op.name == "test.op":
-            return [self.root(v) for v in op.operands if isinstance(v.type, MemRefType)], []
+            return R([v for v in op.operands if isinstance(v.type, MemRefType)]), []
         if op.name == "func.call" and op.callee.string_value() == "ext":
-            bufs = [self.root(v) for v in op.operands if isinstance(v.type, MemRefType)]
+            bufs = R([v for v in op.operands if isinstance(v.type, MemRefType)])
             return bufs, list(bufs)
         return [], []
 
@@ -513,7 +546,8 @@ def trace(conv, f, dec, nb_cores):
                     run(op.body.block, cores, stamp + ((id(op), it),))
             else:
                 if op in conv.opid:
-                    ev.append(("op", op, cores, stamp))
+                    # a buffer chosen by arith.select: the same decision as an scf.if on that condition
+                    ev.append(("op", op, cores, stamp, conv.access(op, lambda c: dec.choose(2, ("if", c)) == 0)))
         return ev
 
     return run(f.body.block, allc, ())
@@ -529,8 +563,8 @@ def check_trace(conv, struct, ev, nb_cores):
                 return (f"a barrier is executed only by cores {sorted(e[1])}: the other cores never arrive (deadlock)", None)
             epoch = []
             continue
-        _, op, cores, stamp = e
-        r2, w2 = conv.access(op)
+        op, cores, stamp = e[1], e[2], e[3]
+        r2, w2 = e[4] if len(e) > 4 else ([], [])
         for (op1, cores1, stamp1, r1, w1) in epoch:
             if cores1 == cores:
                 continue
@@ -550,6 +584,8 @@ def classify(conv, struct, op1, cores1, stamp1, op2, cores2, stamp2, allc):
         return "D30"       # the dependency starts at an all-cores operation
     v1 = {*op1.operands, *op1.results}
     v2 = {*op2.operands, *op2.results}
+    if not (v1 & v2) and (conv.via_select(op1) or conv.via_select(op2)):
+        return "DC13b"     # the buffer is chosen at run time by an arith.select, which the pass does not follow
     if not (v1 & v2):
         return "D6"        # the buffer is shared through a view: the two operations share no SSA value (fixed by FC13b)
     # loop-carried: the second event belongs to a later iteration of a loop that contains both
@@ -571,6 +607,7 @@ class Gen:
     def __init__(self, rng, nbuf, depth, p_all, p_alias, p_sync, dart):
         self.r, self.nbuf, self.depth = rng, nbuf, depth
         self.p_all, self.p_alias, self.p_sync, self.dart = p_all, p_alias, p_sync, dart
+        self.p_sel = 0.12 if rng.random() < 0.12 else 0.0
         self.bufs = [f"b{i}" for i in range(nbuf)]
         self.allocs, self.dead = [], set()
         self.nm = 0
@@ -614,6 +651,12 @@ class Gen:
                 self.dead.add(a)
                 return ["dealloc", a]
             return ["use", [self.pick()]]
+        if r.random() < self.p_sel and depth == 0:
+            self.nm += 1
+            n = f"s{self.nm}"
+            x, y = self.pick(), self.pick()
+            self.bufs.append(n)
+            return ["sel", n, r.randint(0, 1), x, y]
         if r.random() < self.p_alias and depth == 0:
             self.nm += 1
             n = f"v{self.nm}"
@@ -806,7 +849,7 @@ class C13(Prop):
         a = answers[0]
         if "err" in a:
             return {"model_error": a["err"]}
-        if MODEL_FIX == "all" and not a["ok"]["rootVisible"]:
+        if MODEL_FIX == "all" and not a["ok"]["rootVisible"] and not any(x[0] == "sel" for x in walk_stmts(case["body"])):
             return {"model_error": "generated program is outside the theorems' clause RootVisible"}
         if not a["ok"]["nodup"] or not a["ok"]["compoundAll"]:
             return {"model_error": "the block form violates the theorems' well-formedness predicate"}
